@@ -362,3 +362,28 @@ def c17():
         assumptions=["TLC and the Json module", "the harness's token printer (representative text per token kind)",
                      "the recogniser is a hand transcription of antlr/grulev3.g4 at token-kind level"],
         chunks=12, workers=8, extra_cov=extra, extra_violations=lib["violations"], extra_unrep=lib["unreproduced"])
+
+
+def c20():
+    known = _known_ids("C20")
+
+    def known_match(mm):
+        f = mm["fault"]
+        if f["loader"] == "grl" and f["val"] == "deep" and "C20-grl-deep-nesting" in known and not mm["what"].startswith("the loader panicked"):
+            return known["C20-grl-deep-nesting"]["what"]
+        if f["loader"] == "grl" and f["kind"] == "repeat" and "C20-grl-long-chain" in known and not mm["what"].startswith("the loader panicked"):
+            return known["C20-grl-long-chain"]["what"]
+        return None
+    return simple_cases_check(
+        "C20", "GrbStream.tla", ["MCFaults.cfg"], "load-faults",
+        rule="case = structure-aware fault on a valid input: for the binary stream an 8-byte length / count field (the n-th from the start or the end) "
+             "overwritten by one of 20 boundary values (0, 1, len+-1, 2^16 ... 2^64-1), a bit flip, a truncation, a splice; for GRL text, JSON rule text "
+             "and JSON fact text a truncation, an insertion or a repetition of boundary material (huge number, deep nesting, stray quote / brace / NUL, "
+             "100 kB identifier, non-UTF-8 bytes, blank input). Each input is loaded in a child process under ulimit -v which reports its own "
+             "allocation (TotalAlloc delta) and time; bound: 48 MiB + 2 KiB per input byte, 8 s; a panic, an abort of the process or a hang is a violation.",
+        model_text="GrbStream.tla / MCFaults.cfg: the enumerated fault space (no semantics: expected outcome of every case is Bounded)",
+        key_of=lambda m: (m["fault"]["loader"], m["fault"]["kind"], m["fault"]["val"], m["what"][:25]),
+        assumptions=["TLC and the Json module", "runtime.MemStats.TotalAlloc measured in the child around the loader call", "ulimit -v in a sh child",
+                     "valid base inputs generated from the seed"],
+        not_modelled=["random bytes: a TLA+ model has nothing to say about unstructured input (see DESIGN.md section 6); C20 is claimed at exploration level"],
+        chunks=1, workers=4, known=known_match, level="exploration")
